@@ -7,3 +7,7 @@ import ZapProofs.Props.C06
 import ZapProofs.Props.C07
 import ZapProofs.Props.C08
 import ZapProofs.Props.Codec
+import ZapProofs.Props.C01
+import ZapProofs.Props.C02Full
+import ZapProofs.Props.C03Full
+import ZapProofs.Props.C04
